@@ -213,6 +213,7 @@ func (w *World) Exec(st *Step) (res StepResult) {
 		if !sc.Cli.IsActive() {
 			return StepResult{Out: "skip"}
 		}
+		w.dropHeld(st.C)
 		var err error
 		if w.RunFG(func() {
 			if st.Flag == "async" {
@@ -287,6 +288,7 @@ func (w *World) Exec(st *Step) (res StepResult) {
 		if sd == nil || !sc.Cli.IsActive() || sd.Doc.Status() != attachable.StatusAttached {
 			return StepResult{Out: "skip"}
 		}
+		w.dropHeld(st.C)
 		var err error
 		if w.RunFG(func() { err = sc.Cli.Detach(ctx, sd.Doc) }) {
 			return StepResult{Out: "hang"}
@@ -479,3 +481,21 @@ func (w *World) nextFGTask() *taskInfo {
 type userPanic struct{}
 
 var errUserCallback = errors.New("sim: user callback failed")
+
+// dropHeld forgets the delayed copies of a client's earlier requests when the
+// client ends its attachment: a stale duplicate that arrives after the same
+// client re-attached the document is accepted as new (the client sequence
+// restarts) - finding F-C05-stale-duplicate-after-reattach, owned by C05,
+// whose profile sets KeepHeldAcrossDetach.
+func (w *World) dropHeld(c int) {
+	if w.Cfg.Extra["keep_held_across_detach"] > 0 {
+		return
+	}
+	var keep []*heldRequest
+	for _, h := range w.held {
+		if h.Client != c {
+			keep = append(keep, h)
+		}
+	}
+	w.held = keep
+}
